@@ -24,6 +24,7 @@ class Assembler:
         self.payloads = 0
         self.nesting = nesting or {}   # label -> set of enclosing defer labels
         self.stream_items = {}      # id -> number of items delivered incrementally
+        self.stream_paths = {}      # id -> path of the streamed list
         self.events = []            # compact trace of what was seen
         self.just_announced = []
 
@@ -107,6 +108,7 @@ class Assembler:
                     continue
                 if inc.get('subPath'):
                     self.bad('incremental:stream-with-subpath', id=i)
+                self.stream_paths.setdefault(i, list(base))
                 target.extend(copy.deepcopy(inc['items']))
                 self.stream_items[i] = self.stream_items.get(i, 0) + len(inc['items'])
             else:
@@ -160,6 +162,44 @@ class Assembler:
 
 
 _MISSING = object()
+
+
+def stream_order_problems(asm, reference_data):
+    """'Stream items arrive in list order without gaps or repeats': the list assembled for every stream must be, item by
+    item, the reference list (the operation executed with the directives disabled) - never longer, and wherever both
+    items carry a scalar under the same key, the same scalar (a repeated or skipped item shows as a shifted one).
+    Items may be null or lack keys where errors were reported; that is C04's business, not judged here."""
+    out = []
+
+    def ref_at(path):
+        cur = reference_data
+        for k in path:
+            try:
+                cur = cur[k]
+            except (KeyError, IndexError, TypeError):
+                return _MISSING
+        return cur
+    for sid, path in asm.stream_paths.items():
+        got, ref = asm.locate(path), ref_at(path)
+        if not isinstance(got, list) or not isinstance(ref, list):
+            continue      # the list was nulled on one side (error propagation)
+        if len(got) > len(ref):
+            out.append(('stream:more-items-than-the-list-has', {'id': sid, 'path': path, 'delivered': len(got), 'list_length': len(ref)}))
+            continue
+        for idx, (a, b) in enumerate(zip(got, ref)):
+            if isinstance(a, dict) and isinstance(b, dict):
+                for k, v in a.items():
+                    w = b.get(k, _MISSING)
+                    if isinstance(v, (str, int, float, bool)) and isinstance(w, (str, int, float, bool)) and (v != w or type(v) is not type(w)):
+                        out.append(('stream:item-out-of-place', {'id': sid, 'path': path + [idx], 'key': k, 'delivered': v, 'list_has': w}))
+                        break
+                else:
+                    continue
+                break
+            elif isinstance(a, (str, int, float, bool)) and isinstance(b, (str, int, float, bool)) and a != b:
+                out.append(('stream:item-out-of-place', {'id': sid, 'path': path + [idx], 'delivered': a, 'list_has': b}))
+                break
+    return out
 
 
 def defer_label_nesting(doc):
